@@ -36,6 +36,20 @@ def exhaustive(ctx):
         raise vlib.Inconclusive("negative control: the pinned variant should violate AllOrNothing, got %r" % c.violated)
 
 
+def process_level(ctx, behs, n, pid, text):
+    """L4a: the same scenarios against the real binary (SIGHUP reloads, /metrics attribution, log lines).  A process whose
+    first load fails has no SIGHUP handler, so only scenarios whose first load succeeds are used."""
+    pb = [b for b in behs if b and b[0]["a"] == "Load" and b[0]["ok"]][:n]
+    if not pb:
+        ctx.cov["skipped"].append("process level: no scenario starts with a successful load")
+        return
+    sc = [{"id": i + 1, "replay": 0, "steps": b} for i, b in enumerate(pb)]
+    tf = rl_common.run_process(ctx, sc, "proc-" + pid.lower(), timeout=3000)
+    rl_common.judge(ctx, tf, "process level: real binary, SIGHUP reloads, /metrics", pid, text)
+    ctx.cov["evaluations"] += len(pb)
+    ctx.cov["process_level_scenarios"] = len(pb)
+
+
 def run(ctx):
     exhaustive(ctx)
     n = 120 if ctx.quick else 2500
@@ -62,6 +76,7 @@ def run(ctx):
     ctx.cov["evaluations"] += len(behs)
     ctx.cov["distinct_nontrivial"] += nontriv
     ctx.cov["distinct_fault_points"] = len(faults)
+    process_level(ctx, behs, 12 if ctx.quick else 150, "C10", TEXT)
     ctx.sample({"scenario": [{k: v for k, v in st.items() if k in ("a", "cfg", "frn", "ok", "failedAt")} for st in behs[0]]})
     vlib.write_evidence(ctx, "model_checking",
                         "scenarios = TLC-simulated sequences of <= 4 load attempts over a 12-configuration catalogue with "
